@@ -39,7 +39,7 @@ class Twiddles(object):
             else:
                 cc, ss, sq = h.re, h.re, Fraction(1, 2)
             c.axioms.append(SymBool.cmp('<', -h.re))
-            c.axioms.append(SymBool('cmp', '==', Q(P.get_var("tw%d_h" % M) * P.get_var("tw%d_h" % M) - P.Poly.const(sq))))
+            c.axioms.append(SymBool('cmp', '==', Q.make(P.get_var("tw%d_h" % M) * P.get_var("tw%d_h" % M) - P.Poly.const(sq))))
             P.declare_quadratic("tw%d_h" % M, sq)
             self.g = Sym(cc, -ss, True)
             return
@@ -399,7 +399,7 @@ def svd_stub(a, full_matrices=True, compute_uv=True, **kw):
 
 
 def _qkey(q):
-    return (frozenset(q.n.t.items()), frozenset((hash(a), e) for a, e in q.d.items()))
+    return q.key()
 
 
 implements(np.linalg.svd)(svd_stub)
